@@ -72,6 +72,19 @@ def judge(case, reports, add, stats):
             late = True
         if r.get("status") == "exception":
             classes.append("errored:" + runcheck.exc_key(r))
+    # a process that follows a kill must be able to restore the checkpoint:
+    # an exception raised while FlowSampler(resume=True) is constructed is a
+    # failed resume, whatever the configuration (a configuration that nessai
+    # rejects is rejected by the first process, before anything is killed)
+    for i, r in enumerate(reports):
+        if i > 0 and r.get("status") == "exception" and \
+                r.get("phase") == "construct" and \
+                reports[i - 1].get("status") == "killed":
+            add("resume-failed:%s@%s" % (r.get("exc_type"),
+                                         r.get("exc_where")),
+                f"step {i}: the previous process was killed; "
+                f"resuming raised {r.get('exc_type')}: {r.get('exc_msg')}",
+                {"step": i})
     last = reports[-1]
     completed = last.get("status") == "completed" and not last.get("probe")
     if completed:
